@@ -283,8 +283,9 @@ void replay_c05(const std::string &hist) {
 
 // ------------------------------------------------------------------ C10: re-entrant callbacks
 // Every observer performs a fixed list of actions, in order, each time it is invoked.
-enum Act { A_NONE, A_SUBNEW, A_UNSUB, A_MUTE, A_UNMUTE, A_INVAL, A_NOTIFY, NACTS };
-const char *aname[] = {"none", "subnew", "unsub", "mute", "unmute", "inval", "notify"};
+// A_UNSUBD: unsubscribe the target only when called from a nested round (nesting depth 1): an observer that is removed while one of its own calls is still on the stack further up
+enum Act { A_NONE, A_SUBNEW, A_UNSUB, A_MUTE, A_UNMUTE, A_INVAL, A_NOTIFY, A_UNSUBD, NACTS };
+const char *aname[] = {"none", "subnew", "unsub", "mute", "unmute", "inval", "notify", "unsubd"};
 struct Action { int act, target; };
 typedef std::vector<Action> Script;
 
@@ -310,6 +311,7 @@ struct RSys {
             switch (a.act) {
             case A_SUBNEW: subscribe_new(); break;
             case A_UNSUB: if (handles[t].isValid()) handles[t].unsubscribe(); break;
+            case A_UNSUBD: if (depth == 1 && handles[t].isValid()) handles[t].unsubscribe(); break;
             case A_MUTE: if (handles[t].isValid()) handles[t].mute(); break;
             case A_UNMUTE: if (handles[t].isValid()) handles[t].unmute(); break;
             case A_INVAL: if (t == me && self) { if (!destroyed[me]) (*self)->invalidate(); } else if (handles[t].isValid()) handles[t].getObserver()->invalidate(); break;
@@ -341,6 +343,7 @@ struct RefSim {
             switch (a.act) {
             case A_SUBNEW: obs.push_back(O{}); break;
             case A_UNSUB: if (obs[t].subscribed) obs[t].subscribed = false; break;
+            case A_UNSUBD: if (depth == 1 && obs[t].subscribed) obs[t].subscribed = false; break;
             case A_MUTE: if (obs[t].subscribed) { obs[t].muted = true; obs[t].touched_in = round_serial; } break;
             case A_UNMUTE: if (obs[t].subscribed) { obs[t].muted = false; obs[t].touched_in = round_serial; } break;
             case A_INVAL: if (obs[t].subscribed) { obs[t].valid = false; obs[t].touched_in = round_serial; } break;
@@ -404,7 +407,7 @@ void run_config(int n, unsigned mutemask, const std::vector<Script> &scripts) {
 
 std::vector<Action> menu(int n) {
     std::vector<Action> m{{A_SUBNEW, 0}, {A_NOTIFY, 0}};
-    for (int t = 0; t < n; t++) for (int a : {A_UNSUB, A_MUTE, A_UNMUTE, A_INVAL}) m.push_back(Action{a, t});
+    for (int t = 0; t < n; t++) for (int a : {A_UNSUB, A_MUTE, A_UNMUTE, A_INVAL, A_UNSUBD}) m.push_back(Action{a, t});
     return m;
 }
 // every action list of length 0..maxlen over the menu
